@@ -1,6 +1,7 @@
 package props
 
 import (
+	"go/constant"
 	"go/types"
 	"strings"
 
@@ -107,12 +108,31 @@ func obSign(c *rules.Ctx, id string) {
 	c.PortionRangeChecked(obp)
 }
 
+// keptMarker reads the value of the interpreter's KEPT_ADDR constant.
+func keptMarker(c *rules.Ctx) string {
+	if pkg := c.P.Pkg(relInterp); pkg != nil {
+		if k, ok := pkg.Types.Scope().Lookup("KEPT_ADDR").(*types.Const); ok {
+			return constant.StringVal(k.Val())
+		}
+	}
+	return "<kept>"
+}
+
 func init() {
 	Registry["C02"] = &Spec{
 		Explanation: "",
 		Assumptions: []string{A1, A3, A4},
 		Run: func(c *rules.Ctx) {
+			ob1 := c.R.Ob("C02.1", "ctrl/zero-filter", "every amount queued as sender or receiver is tested non-zero (or is the remainder of a strictly ordered subtraction) on every path", 4)
+			r := c.Roles(ob1)
+			c.ZeroFilter(ob1, r)
 			obSign(c, "C02.2")
+			ob4 := c.R.Ob("C02.4", "origin/posting", "a posting's source is a sender's name, its destination a receiver's name that is never the kept marker, its asset the current asset of the statement", 3)
+			c.PostingShape(ob4, r, keptMarker(c))
+			ob5 := c.R.Ob("C02.4b", "ctrl/asset", "the current asset is assigned by each statement before anything reads it", 2)
+			c.AssetAssignedBeforeUse(ob5, r)
+			ob6 := c.R.Ob("C02.6", "ctrl/negative", "negative amounts are rejected by a strict comparison with zero", 2)
+			c.NegativeTestStrict(ob6, "NegativeAmountErr")
 		},
 	}
 }
